@@ -8,6 +8,9 @@ worktree again and prints one JSON summary line.  (REPO=<worktree> makes the che
 equivalent to `git -C /repo apply` + `git -C /repo checkout -- .` but does not disturb other work in /repo.)
 """
 import json, os, subprocess, sys, tempfile, shutil, time
+record = "--record" in sys.argv
+if record:
+    sys.argv.remove("--record")
 seed = os.path.abspath(sys.argv[1])
 meta = json.load(open(os.path.join(seed, "meta.json")))
 props = sys.argv[2:] or [meta["property"]]
@@ -39,4 +42,18 @@ try:
 finally:
     sh("git -C /repo worktree remove --force %s" % wt)
     shutil.rmtree(wt, ignore_errors=True)
+if record:
+    dst = os.path.join("/verif/seeded", os.path.basename(seed))
+    os.makedirs(dst, exist_ok=True)
+    for f in ("patch.diff", "demo.py"):
+        if os.path.abspath(os.path.join(seed, f)) != os.path.abspath(os.path.join(dst, f)):
+            shutil.copy(os.path.join(seed, f), os.path.join(dst, f))
+    meta["confirmed_by_verif"] = {
+        "what_was_run": "tools/seedtest.py: scratch worktree of /repo HEAD; demo.py on the clean worktree (rc %s), git apply patch.diff, demo.py again (rc %s); then ./check <id> --tier quick with REPO=<patched worktree>; worktree removed" % (res.get("demo_clean_rc"), res.get("demo_patched_rc")),
+        "demo_passes_without_change": res.get("demo_clean_rc") == 0,
+        "demo_fails_with_change": res.get("demo_patched_rc") not in (0, None),
+        "checks": res.get("checks"),
+        "caught_by": sorted(p for p, c in res.get("checks", {}).items() if c["rc"] == 1),
+    }
+    json.dump(meta, open(os.path.join(dst, "meta.json"), "w"), indent=1)
 print(json.dumps(res))
